@@ -50,6 +50,7 @@ type Scenario struct {
 	Waiters   []int // observers to Wait() on
 	Slow      int
 	EarlyStop bool
+	JoinTd    bool // plain observable kinds: teardown 0 (the source's) waits until no producer is inside an emission - a clean shutdown that joins its workers - unless it runs on a producer's own goroutine
 	SubPanic  bool // obs-safe only: the subscribe function hands the destination to the producers, waits until a value is being delivered and then PANICS (C07 / C01 / C02: the Error made from the panic is serialised with the producers' notifications)
 	Chain     bool // plain observable kinds: the observer is attached through TapOnSubscribe | Scan (a pass-through operator and an operator with unsynchronised state)
 }
@@ -142,6 +143,7 @@ func Gen(r *rand.Rand) Scenario {
 	}
 	sc.Slow = 1 + r.Intn(6)
 	sc.Chain = !isSubj && len(sc.PanicTd) == 0 && r.Intn(3) == 0
+	sc.JoinTd = !isSubj && sc.Kind != "obs-unsafe" && len(sc.PanicTd) == 0 && r.Intn(4) == 0
 	if sc.Kind == "obs-safe" && len(sc.PanicTd) == 0 && r.Intn(5) == 0 {
 		// the subscribe function panics while its producers are already emitting: no teardown is ever returned
 		sc.SubPanic = true
@@ -223,8 +225,28 @@ func RunWithLog(lg *rec.Log, sc Scenario, seed int64) []rec.Ev {
 		)
 	}
 
+	var inEmission [8]int32 // per producer: inside an emission right now
+	var emSeq [8]int64      // per producer: emissions started
+	var prodGid [8]uint64
 	mkTd := func(i int) func() {
 		return func() {
+			if i == 0 && sc.JoinTd {
+				// join the workers: every producer that is inside an emission leaves it first (bounded: a producer that can never leave is reported as a hang)
+				me := rec.Gid()
+				for p := range sc.Scripts {
+					if atomic.LoadUint64(&prodGid[p]) == me {
+						continue
+					}
+					s0 := atomic.LoadInt64(&emSeq[p])
+					k := 0
+					for ; k < 100000 && atomic.LoadInt32(&inEmission[p]) != 0 && atomic.LoadInt64(&emSeq[p]) == s0; k++ {
+						time.Sleep(50 * time.Microsecond)
+					}
+					if k == 100000 {
+						lg.Add(rec.Ev{E: "hang", S: fmt.Sprintf("the source teardown waited 5s for producer %d, which is blocked inside the library", p)})
+					}
+				}
+			}
 			lg.Add(rec.Ev{E: "td", I: i})
 			if sc.PanicTd[i] {
 				panic(fmt.Errorf("teardown %d panics", i))
@@ -267,7 +289,11 @@ func RunWithLog(lg *rec.Log, sc Scenario, seed int64) []rec.Ev {
 					jitter(r)
 					ctx := rec.WithCall(pctx, ci)
 					lg.Add(rec.Ev{E: "callB", P: p, K: n.K, V: n.V, I: ci})
+					atomic.StoreUint64(&prodGid[p], rec.Gid())
+					atomic.AddInt64(&emSeq[p], 1)
+					atomic.StoreInt32(&inEmission[p], 1)
 					guarded(p, 0, func() {
+						defer atomic.StoreInt32(&inEmission[p], 0)
 						switch n.K {
 						case "N":
 							tgt.NextWithContext(ctx, n.V)
